@@ -25,7 +25,7 @@ def seq_families(tier):
                  scen.with_bounds(scen.unary(kind, **par), kind, **big))
         F[nm + "_serr"] = (scen.with_bounds(scen.unary(kind, **par), kind, **unE), None)
     # re-entrant emission: a listenable upstream emits again from inside the sink's handler
-    re = dict(maxData=3, maxTop=3, maxPull=0, allowFail=q is False, reentrant=True)
+    re = dict(maxData=2, maxTop=3, maxPull=0, allowFail=True, reentrant=True)
     for kind, par in (("map", dict(f="inc")), ("filter", dict(p="even")), ("scan", dict(r="lin", seed=5)),
                       ("take", dict(n=1)), ("take", dict(n=2)), ("skip", dict(n=1))):
         nm = kind + (str(par["n"]) if "n" in par else "")
@@ -109,6 +109,17 @@ def plan(prop, tier):
                 g = {"nodes": [scen.puppet(1, 1, mode)], "root": 1}
                 fams.append((f"foreach_raw_{mode}", scen.with_bounds(g, "for_each", sinks=["foreach_raw"], maxData=2,
                                                                     maxTop=4, maxPull=0, allowFail=True), None))
+        if prop in ("C02", "C03", "C04", "C17"):
+            # the README's reactive pipelines: operators over interval (virtual clock)
+            for kind, par in (("take", dict(n=2)), ("filter", dict(p="even")), ("map", dict(f="inc"))):
+                g = {"nodes": [{"id": 1, "kind": "interval", "period": 1}, dict({"id": 2, "kind": kind, "ups": [1]}, **par)],
+                     "root": 2}
+                fams.append((f"interval_{kind}", scen.with_bounds(g, kind, maxTop=5 if tier == "quick" else 7, maxPull=1,
+                                                                allowFail=False), None))
+            g = {"nodes": [{"id": 1, "kind": "interval", "period": 1}, {"id": 2, "kind": "interval", "period": 2},
+                           {"id": 3, "kind": "merge", "ups": [1, 2]}, {"id": 4, "kind": "take", "n": 2, "ups": [3]}], "root": 4}
+            fams.append(("interval_merge_take", scen.with_bounds(g, "take", maxTop=5 if tier == "quick" else 7, maxPull=0,
+                                                                 allowFail=False), None))
         if prop == "C17":
             # C17 only: upstreams that greet later than the subscribing call, for every operator (the other
             # properties quantify over late greeters for merge! only)
